@@ -77,4 +77,6 @@ package parser
 //@   assigns  nothing
 //@ func (e EndNode) SetReaderPos(f func(parsley.Pos) parsley.Pos)
 //@   props C07
+//@   requires cloinv(f)
+//@   ensures  [others] ast.OthersKept() && cloinv(f)
 //@   assigns  nothing
